@@ -492,7 +492,7 @@ func describeExpr(f *FuncInfo, e ast.Expr, depth int) string {
 		}
 		return "(" + l + op.String() + r + ")"
 	case *ast.IndexExpr:
-		if describeCanonical {
+		if describeCanonical || describeIndexAsRange {
 			// X[i] inside `for i := 0; i < len(X); i++` is the element a range loop over X would bind
 			if id, ok := ast.Unparen(x.Index).(*ast.Ident); ok {
 				if v, ok := info.Uses[id].(*types.Var); ok {
@@ -535,6 +535,10 @@ var describeTypes bool
 // describeCanonical makes describeExpr order the operands of commutative operators and normalise > / >= (set by the
 // guarded-actions engine only).
 var describeCanonical bool
+
+// describeIndexAsRange enables only the index-loop canonicalisation of the canonical mode: X[i] inside
+// `for i := 0; i < len(X); i++` (or `for i := range X`) is rendered as the element a range loop over X binds.
+var describeIndexAsRange bool
 
 // describeUsePos, when valid, makes describeExpr resolve a local variable with several definitions to the last
 // definition textually before that position (see describeExprAt).
